@@ -203,7 +203,7 @@ func checkSingle(w *World, rep *vh.Report, fl files, idx int, cs Case) {
 			(v.PrivKey != nil) != (cs.C.PrivKey == "ok") {
 			rep.Violate("validated:fields-do-not-match-config", "ValidatedLogConfig does not carry the parsed counterparts of the configured fields", replay)
 		}
-		if v.FrozenSTH != nil && (v.FrozenSTH.TreeSize != uint64(msg.FrozenSth.TreeSize) || !bytes.Equal(v.FrozenSTH.SHA256RootHash[:], msg.FrozenSth.Sha256RootHash)) {
+		if v.FrozenSTH != nil && !sthIs(v.FrozenSTH, msg.FrozenSth) { // all four fields
 			rep.Violate("validated:frozen-sth-differs", "ValidatedLogConfig.FrozenSTH is not the configured STH", replay)
 		}
 		validatedWindow(rep, cs, v, wsp, replay)
